@@ -63,6 +63,9 @@ func v(a ...int) int { return len(a) }
 # token = (text, kind): kind 'w' = blank before by default, 'n' = no blank before by default,
 # 'N' = never a blank before (statement-head call paren / index bracket: the known command-call dimension),
 # 'B' = always a blank before (operand of a send arrow), 'L' = starts a new line
+# integer / floating-point literal spellings in both letter cases (radix prefixes, exponents, hex digits, separators)
+INT_LITS = ["0xff", "0XFF", "0xaB", "0XAb", "0b101", "0B101", "0o17", "0O17", "017", "0x_f", "0X_F", "1_000", "0B1_0", "0"]
+FLOAT_LITS = ["1e2", "1E2", "1.5e+2", "1.5E-2", "0x1p+2", "0X1P+2", "0x1P-1", "0X.8p1", "0xA.8P0", "1.", ".5", "1_0.2_5", "1e0i", "0X1P0i"]
 ARITH = ["+", "-", "*", "&", "|", "^", "&^"]
 CMP = ["==", "!=", "<", "<=", ">", ">="]
 NL_AFTER = set(ARITH + CMP + ["/", "%", "<<", ">>", "&&", "||", ",", "(", "[", "{", "=", ":=", "+=", "-=", "*=", "|="])
@@ -77,7 +80,10 @@ class Gen:
     def w(self, t): return [(t, 'w')]
     def n(self, t): return [(t, 'n')]
 
-    def lit(self): return self.w(str(1 + self.rng.below(9)))
+    def lit(self):
+        if self.rng.below(4) == 0:
+            return self.w(self.rng.choice(INT_LITS))
+        return self.w(str(1 + self.rng.below(9)))
 
     def ie(self, d):
         """int expression"""
@@ -223,6 +229,9 @@ class Gen:
             self.nlab += 1
             L = "L%d" % self.nlab
             return self.line(self.w(L) + self.n(":")) + self.line(self.w("for")) + self.w("{") + self.line(self.w("break") + self.w(L)) + self.line(self.w("}"))
+        if r < 91:
+            x = self.var()
+            return self.line(self.w(x) + self.w(":=") + self.w(self.rng.choice(FLOAT_LITS))) + self.line(self.w("_") + self.w("=") + self.w(x))
         if r < 92: return self.line(self.w("_") + self.w("=") + self.be(2))
         if r < 94: return self.line(self.w("s") + self.w("=") + self.w("append") + self.n("(") + self.n("s") + self.n(",") + self.ie(1) + self.n(")"))
         if r < 95: return self.line(self.w("t") + self.w("=") + self.w("&") + self.n("T") + self.n("{") + self.n("x") + self.n(":") + self.ie(1) + self.n("}"))
@@ -329,7 +338,9 @@ CRAFT = {
     "select-forever": "package p\nfunc f(c chan int) {\n\tselect {}\n\tfor range c {\n\t}\n}\n",
     "range-int": "package p\nfunc f() {\n\tfor i := range 10 {\n\t\t_ = i\n\t}\n}\n",
     "imports": "package p\nimport (\n\t\"fmt\"\n\t. \"os\"\n\t_ \"io\"\n\tx \"path\"\n)\nvar _ = fmt.Sprint\nvar _ = Args\nvar _ = x.Base\n",
-    "keyword-field": "package p\ntype T struct{ in int }\nvar in = T{}.in\n",
+    "numeric-literals": "package p\nvar (\n" + "".join("\ti%d = %s\n" % (k, v) for k, v in enumerate(INT_LITS)) +
+                        "".join("\tf%d = %s\n" % (k, v) for k, v in enumerate(FLOAT_LITS)) + ")\nvar y = 0XFF + 0B11*0O7 - 0X1P+2\n",
+        "keyword-field": "package p\ntype T struct{ in int }\nvar in = T{}.in\n",
 }
 
 WS_BASE = [
